@@ -463,7 +463,7 @@ func (e *Exec) store(s *State, loc *Loc, v Value) {
 // frameCheck: a write to (component, ref) must be inside the function's modifies clause or hit
 // an object allocated by this very call.
 func (e *Exec) frameCheck(comp, ref string) {
-	if e.discovery || e.lemmaMode {
+	if e.discovery || e.lemmaMode || (e.Con != nil && e.Con.NoFrame) {
 		return
 	}
 	var alts []string
